@@ -94,10 +94,58 @@ type state struct {
 type caseT struct {
 	Child, Main shape
 	K           int
+	// Mode: "" = one Run on a fresh VM; "rerun" = the program is the second RunCode on a VM that has
+	// already completed a run under the same context; "call" = the program is the body of a function
+	// invoked with vm.Call after a RunCode under the same context (what risor.Call does)
+	Mode string
 }
 
 func (c caseT) name() string {
-	return fmt.Sprintf("%s + %s, cancel at main point %d", c.Child.Name, c.Main.Name, c.K)
+	m := ""
+	if c.Mode != "" {
+		m = " [" + c.Mode + " on a reused VM, same context]"
+	}
+	return fmt.Sprintf("%s + %s, cancel at main point %d%s", c.Child.Name, c.Main.Name, c.K, m)
+}
+
+// runReused performs the evaluation of src as a later invocation on a VM that has already been
+// used with the same context.
+func runReused(st *state, src, mode string) rt.Outcome {
+	var o rt.Outcome
+	first, o1 := st.env.Compile("1")
+	if first == nil {
+		return o1
+	}
+	body := src
+	if mode == "call" {
+		body = "func entry() {\n" + src + "\n}\n0"
+	}
+	code, o2 := st.env.Compile(body)
+	if code == nil {
+		return o2
+	}
+	m := vm.New(first, vm.WithGlobals(st.env.Globals), vm.WithOS(st.env.OS), vm.WithConcurrency())
+	fail := func(err error) rt.Outcome {
+		o.Stage, o.Err, o.ErrText = "run", err, err.Error()
+		return o
+	}
+	if err := m.Run(st.ctx); err != nil {
+		return fail(err)
+	}
+	if err := m.RunCode(st.ctx, code); err != nil {
+		return fail(err)
+	}
+	if mode == "call" {
+		f, err := m.Get("entry")
+		if err != nil {
+			return fail(err)
+		}
+		if _, err := m.Call(st.ctx, f.(*object.Function), nil); err != nil {
+			return fail(err)
+		}
+	}
+	o.Stage = "ok"
+	return o
 }
 
 func (c caseT) scenario() *dsched.Scenario {
@@ -148,6 +196,11 @@ func (c caseT) scenario() *dsched.Scenario {
 					return object.Nil
 				}),
 			})
+			if c.Mode != "" {
+				st.out = runReused(st, src, c.Mode)
+				atomic.StoreInt32(&st.returned, 1)
+				return
+			}
 			code, o := st.env.Compile(src)
 			if code == nil {
 				st.out = o
@@ -248,7 +301,7 @@ func Check(r *ev.Run, replay string) {
 		r.Set("traces_validated_against_impl", 1)
 		return
 	}
-	bound, maxK, limit := 1, 8, 1500
+	bound, maxK, limit := 1, 8, 8000
 	mains := mainShapes()
 	if r.Thorough() {
 		bound, maxK, limit = 2, 24, 20000
@@ -265,40 +318,48 @@ func Check(r *ev.Run, replay string) {
 				if idx%nShards != shard {
 					continue
 				}
-				for k := 0; k <= maxK; k++ {
-					if !r.Thorough() && k > 3 && k%2 == 1 {
-						continue
+				for _, mode := range []string{"", "rerun", "call"} {
+					if mode == "call" && mn.Name == "mutual-recursion" {
+						continue // forward references between named functions only exist at the top level
 					}
-					c := caseT{ch, mn, k}
-					sc := c.scenario()
-					st := dsched.Explore(sc, bound, limit)
-					cases++
-					total += st.Executions
-					points += st.Points
-					r.Eval(st.Executions)
-					idleOnly := true
-					for key := range st.Outcomes {
-						r.Outcome(ch.Name + "|" + mn.Name + "|" + key)
-						if !strings.Contains(key, "idle=true") {
-							idleOnly = false
+					if mode != "" && (ci > 1 || (!r.Thorough() && mi%2 == 1)) {
+						continue // reused-VM modes: without children and with the go-looping child; quick: every other main shape
+					}
+					for k := 0; k <= maxK; k++ {
+						if !r.Thorough() && k > 3 && k%2 == 1 {
+							continue
 						}
-					}
-					if cases%29 == 1 {
-						r.Sample(map[string]any{"case": c.name(), "source": ch.Src + mn.Src, "executions": st.Executions, "bound_completed": st.BoundCompleted, "outcomes": len(st.Outcomes)})
-					}
-					if st.EngineError != "" {
-						r.EngineError(c.name() + ": " + st.EngineError)
-						break
-					}
-					if st.Capped {
-						r.Cap(fmt.Sprintf("%s: %d executions, bound %d completed", c.name(), st.Executions, st.BoundCompleted))
-					}
-					if st.Violation != "" {
-						r.Report(signature(ch, mn, st.Violation), c.name()+"\n  "+strings.ReplaceAll(ch.Src+mn.Src, "\n", "; ")+"\n  "+st.Violation, replayIn{c, st.ViolationSched}, st.Violation, "the evaluation returns the context's error promptly and nothing it started keeps running")
-						break
-					}
-					if idleOnly && st.Executions > 0 {
-						break // the main task blocks before point k: later instants are the same execution
+						c := caseT{ch, mn, k, mode}
+						sc := c.scenario()
+						st := dsched.Explore(sc, bound, limit)
+						cases++
+						total += st.Executions
+						points += st.Points
+						r.Eval(st.Executions)
+						idleOnly := true
+						for key := range st.Outcomes {
+							r.Outcome(ch.Name + "|" + mn.Name + "|" + key)
+							if !strings.Contains(key, "idle=true") {
+								idleOnly = false
+							}
+						}
+						if cases%29 == 1 {
+							r.Sample(map[string]any{"case": c.name(), "source": ch.Src + mn.Src, "executions": st.Executions, "bound_completed": st.BoundCompleted, "outcomes": len(st.Outcomes)})
+						}
+						if st.EngineError != "" {
+							r.EngineError(c.name() + ": " + st.EngineError)
+							break
+						}
+						if st.Capped {
+							r.Cap(fmt.Sprintf("%s: %d executions, bound %d completed", c.name(), st.Executions, st.BoundCompleted))
+						}
+						if st.Violation != "" {
+							r.Report(signature(ch, mn, st.Violation), c.name()+"\n  "+strings.ReplaceAll(ch.Src+mn.Src, "\n", "; ")+"\n  "+st.Violation, replayIn{c, st.ViolationSched}, st.Violation, "the evaluation returns the context's error promptly and nothing it started keeps running")
+							break
+						}
+						if idleOnly && st.Executions > 0 {
+							break // the main task blocks before point k: later instants are the same execution
+						}
 					}
 				}
 			}
